@@ -2,8 +2,8 @@
 # seedtest.sh <patch> <Cxx> [tier]  — apply a seeded change to /repo, run the check, undo. Prints exit code.
 patch="$1"; id="$2"; tier="${3:-quick}"
 if [ -n "$(git -C /repo status --porcelain --untracked-files=no)" ]; then echo "/repo dirty"; exit 9; fi
-git -C /repo apply "$patch" || git -C /repo apply --3way "$patch" || { echo "PATCH-DOES-NOT-APPLY"; git -C /repo checkout -- .; exit 8; }
+git -C /repo apply "$patch" || git -C /repo apply --3way "$patch" || { echo "PATCH-DOES-NOT-APPLY"; git -C /repo reset -q --hard HEAD; exit 8; }
 /verif/check "$id" "$tier" > /tmp/seedtest.out 2>&1; rc=$?
-git -C /repo checkout -- . ; git -C /repo reset -q
+git -C /repo reset -q --hard HEAD
 grep -E "^VIOLATION|KNOWN-FINDING|^C[0-9]+ " /tmp/seedtest.out | cut -c1-300 | head -8
 echo "exit=$rc"
